@@ -6,6 +6,7 @@ get_time_with_phase; predicate: direct comparison + RV curves through get_orbit 
 """
 import json
 import math
+import os
 
 import numpy as np
 
@@ -255,8 +256,11 @@ def run_case(case):
     trows = []
     if s.t_ref is not None:
         try:
-            phi = float(np.round(r.uniform(-7, 7) * 256) / 256)
-            tt = s.get_time_with_phase(phase=phi * u.rad)
+            # the requested phase in radians, degrees or arcminutes: the same angle must give the same time
+            punit = [u.rad, u.deg, u.arcmin][int(r.integers(0, 3))]
+            pval = float(np.round(r.uniform(-7, 7) * 256) / 256) if punit is u.rad else float(np.round(r.uniform(-400, 400) * 4) / 4) * (60 if punit is u.arcmin else 1)
+            phi = float((pval * punit).to_value(u.rad))
+            tt = s.get_time_with_phase(phase=pval * punit)
             t0 = s.get_t0()
             dts = np.atleast_1d((tt - s.t_ref).to_value(u.day))
             dt0 = np.atleast_1d((t0 - s.t_ref).to_value(u.day))
@@ -272,6 +276,11 @@ def run_case(case):
                     break
         except Exception as e:
             problems.append(f"get_time_with_phase raised {type(e).__name__}: {str(e)[:100]}")
+    try:
+        if table_of(s) != base:
+            problems.append("the table (values, units or metadata) was modified by read-only operations on it")
+    except Exception as e:
+        problems.append(f"the table is unusable after read-only operations: {type(e).__name__}: {str(e)[:100]}")
     if pack_term is None:
         return None, problems
     term = (f"({stab_term(base)}, {coq_list(sels)}, {stab_term(cpt)}, {coq_list(reds)}, {med_term}, {pack_term}, {coq_list(wrows)}, {coq_list(trows)})")
@@ -281,7 +290,14 @@ def run_case(case):
 def run_cases(ctx, cases):
     terms, kept = [], []
     for c in cases:
-        term, problems = run_case(c)
+        try:
+            term, problems = run_case(c)
+        except Exception as e:  # an operation in the sequence broke the table for the following ones
+            import traceback
+
+            tb = traceback.extract_tb(e.__traceback__)
+            where = next((f"{os.path.basename(fr.filename)}:{fr.lineno} {fr.line}" for fr in reversed(tb) if "harness" in fr.filename), "")
+            term, problems = None, [f"operation sequence on one table raised {type(e).__name__}: {str(e)[:120]} at [{where}] (an earlier operation damaged the table or its metadata)"]
         if problems:
             ctx.fail("predicate", "C17:table", "; ".join(problems[:2]) + f" [seed {c['seed']}]", case=c)
         if term is not None:
